@@ -3,6 +3,7 @@ package pdf
 import (
 	"bytes"
 	"io"
+	"slices"
 )
 
 // Exports for the external /verif test files (same test binary).
@@ -38,4 +39,24 @@ func VerifSetSchedHook(f func(point string, ref Reference)) {
 		return
 	}
 	verifSchedHook.Store(&f)
+}
+
+// VerifXRefReferences lists up to max cross-referenced (not free) references of r.
+func VerifXRefReferences(r *Reader, max int) []Reference {
+	nums := make([]uint32, 0, len(r.xref))
+	for n, e := range r.xref {
+		if e == nil || e.IsFree() {
+			continue
+		}
+		nums = append(nums, n)
+	}
+	slices.Sort(nums)
+	if len(nums) > max {
+		nums = nums[:max]
+	}
+	res := make([]Reference, len(nums))
+	for i, n := range nums {
+		res[i] = NewReference(n, r.xref[n].Generation)
+	}
+	return res
 }
